@@ -182,7 +182,9 @@ export class ProcGenWrapper {
 
   create(data: DataValue): { [field: string]: BindingMapGen[] } | undefined {
     const { shadowRoot, procGen } = this
-    const children = procGen(this, true, data, undefined)
+    // (an empty tree, not `undefined`: the children closures created here are called again when
+    // slot values change, and then read fields of the update path tree)
+    const children = procGen(this, true, data, Object.create(null) as UpdatePathTreeNode)
     this.handleChildrenCreationAndInsert(children.C, shadowRoot, undefined, undefined)
     return children.B
   }
